@@ -116,6 +116,10 @@ package didstore
 //@   prop C10
 //@   modifies nothing
 
+//@ func controllerSort
+//@   prop C10
+//@   modifies nothing
+
 //@ func serviceSort
 //@   prop C10
 //@   modifies nothing
